@@ -38,6 +38,26 @@ def run(ctx):
                      f"m={m} n={n_bad // 2} {'same' if n_bad % 2 == 0 else 'mixed'}: library {mine[n_bad:n_bad+1]} reference {ref[n_bad]}",
                      {"m": m})
     ctx.extra["label_kind_triples"] = nk
+    if ctx.thorough():
+        # three-way agreement: detect_label_type and s_label_kind evaluated INSIDE Coq (vm_compute, no extraction) for a
+        # sample of m must give what the extracted OCaml driver gave (and hence what the implementation gave)
+        sample = [m for m in ms if m <= 70][:50] + [255, 256, 1023]
+        code = "(fun k => match k with KShort => 0 | KLong => 1 | KSame => 2 end)"
+        term = ("flat_map (fun m => flat_map (fun n => flat_map (fun l => [" + code + " (detect_label_type l m); " + code +
+                " (s_label_kind l m)]) [repeat true n; firstn n (true :: repeat false n)]) (seq 0 (S m))) [" +
+                "; ".join(f"{m}%nat" for m in sample) + "]")
+        nums, err = core.coq_eval_numbers("Base.Result Base.Bits Model.Cell Model.Builder Model.Hashmap Spec.Hashmap", term, "c10_cases",
+                                          timeout=900)
+        if nums is None:
+            ctx.broken.append("in-Coq evaluation of the label-kind model failed: " + err[:200])
+        else:
+            mmap = dict(zip(ms, model))
+            want = []
+            for m in sample:
+                want += [{"s": 0, "l": 1, "e": 2}[ch] for ch in mmap[m]]
+            if nums != want:
+                ctx.broken.append("extraction cross-check: Coq's vm_compute and the extracted OCaml model disagree on label kinds")
+            ctx.extra["in_coq_cross_check_label_kinds"] = len(want)
 
     # 2. canonical encoding: library cell == independent reference encoder
     dag0 = bs.pool_dag(rng, 3)
